@@ -44,6 +44,15 @@ type c16Case struct {
 	Text string `json:"text,omitempty"`     // kind setstring
 	Via  string `json:"via,omitempty"`      // SetString | NewDecimalString
 	Why  string `json:"generated_as,omitempty"`
+	// kind reuse: ONE decimal object given these values one after the
+	// other, formatted after each
+	Steps []c16Step `json:"steps,omitempty"`
+}
+
+type c16Step struct {
+	Op string `json:"op"`          // setbytes | setbytes-negate | negate | setint64 | setstring | scale | string-twice
+	U  string `json:"u,omitempty"` // the unscaled integer given (setbytes, setint64), or the text's value (setstring)
+	S  int    `json:"scale,omitempty"`
 }
 
 var c16Pow [128]*big.Int
@@ -553,8 +562,74 @@ func c16CheckNewDecimal(r *rt.Result, l *c16Local, cs c16Case) {
 	}
 }
 
+// c16CheckReuse: a Decimal is a mutable object (the driver's result cells
+// are refilled row by row); whatever it held and printed before, its text
+// is the expansion of what it holds now.
+func c16CheckReuse(r *rt.Result, l *c16Local, cs c16Case) {
+	r.Eval(1)
+	d := c16NewValid(r, cs)
+	if d == nil {
+		return
+	}
+	u := new(big.Int)
+	sc := cs.S
+	for si, st := range cs.Steps {
+		var got string
+		var back *big.Int
+		var err error
+		arg, _ := new(big.Int).SetString(st.U, 10)
+		pi := rt.Catch(func() {
+			switch st.Op {
+			case "setbytes":
+				d.SetBytes(new(big.Int).Abs(arg).Bytes())
+				u.Abs(arg)
+			case "setbytes-negate":
+				d.SetBytes(new(big.Int).Abs(arg).Bytes())
+				d.Negate()
+				u.Neg(new(big.Int).Abs(arg))
+			case "negate":
+				d.Negate()
+				u.Neg(u)
+			case "setint64":
+				d.SetInt64(arg.Int64())
+				u.Set(arg)
+			case "setstring":
+				err = d.SetString(c16Expand(arg, sc))
+				u.Set(arg)
+			case "scale":
+				d.Scale = st.S
+				sc = st.S
+			case "string-twice":
+				_ = d.String()
+			}
+			back = d.Int()
+			got = d.String()
+		})
+		l.ctr["reuse_steps"]++
+		if pi != nil {
+			r.Violate("panic/"+pi.Frame+"/reuse", fmt.Sprintf("(%d,%d) step %d (%s %s): panicked: %s", cs.P, cs.S, si+1, st.Op, st.U, pi.Value), cs)
+			return
+		}
+		if err != nil {
+			r.Violate("reuse/setstring-rejected", fmt.Sprintf("(%d,%d) step %d: SetString(%q) on a decimal that held another value before fails: %v", cs.P, sc, si+1, c16Expand(arg, sc), err), cs)
+			return
+		}
+		if back == nil || back.Cmp(u) != 0 {
+			r.Violate("reuse/int-not-the-value-set", fmt.Sprintf("(%d,%d) after steps %v: Int() = %v, the value set is %s", cs.P, sc, cs.Steps[:si+1], back, u), cs)
+			return
+		}
+		if want := c16Expand(u, sc); got != want {
+			r.Violate("reuse/string-not-the-current-value", fmt.Sprintf("(%d,%d) after steps %v the decimal holds the unscaled integer %s (Int() confirms), String() = %q, the expansion of u/10^%d is %q", cs.P, sc, cs.Steps[:si+1], u, got, sc, want), cs)
+			return
+		}
+	}
+	l.ctr["reuse_sequences_consistent"]++
+}
+
 func c16Exec(r *rt.Result, l *c16Local, cs c16Case) {
 	switch cs.Kind {
+	case "reuse":
+		c16CheckReuse(r, l, cs)
 	case "string":
 		c16CheckString(r, l, cs)
 	case "setstring":
@@ -872,6 +947,56 @@ func runC16(c *Ctx) {
 				}
 			}
 			text(c16RandText(rnd, p, s))
+		}
+		// one object, several values in a row
+		nSeq := 6
+		if !c.Quick() {
+			nSeq = 200
+		}
+		for j := 0; j < nSeq; j++ {
+			cs := c16Case{Kind: "reuse", P: p, S: s}
+			randU := func(maxDigits int) *big.Int {
+				u := c16Digits(c16RandDigits(rnd, rnd.Range(1, maxDigits)))
+				return u
+			}
+			sc := s
+			for n := rnd.Range(2, 8); n > 0; n-- {
+				var st c16Step
+				switch rnd.Intn(8) {
+				case 0, 1:
+					st = c16Step{Op: "setbytes", U: randU(p).String()}
+				case 2:
+					st = c16Step{Op: "setbytes-negate", U: randU(p).String()}
+				case 3:
+					st = c16Step{Op: "negate"}
+				case 4:
+					md := p
+					if md > 18 {
+						md = 18
+					}
+					u := randU(md)
+					if rnd.Bool() {
+						u.Neg(u)
+					}
+					st = c16Step{Op: "setint64", U: u.String()}
+				case 5:
+					u := randU(p)
+					if rnd.Bool() {
+						u.Neg(u)
+					}
+					st = c16Step{Op: "setstring", U: u.String()}
+				case 6:
+					sc = rnd.Range(0, p)
+					st = c16Step{Op: "scale", S: sc}
+				default:
+					st = c16Step{Op: "string-twice"}
+				}
+				cs.Steps = append(cs.Steps, st)
+			}
+			if j == 0 && sampled {
+				r.Sample("reuse", cs)
+			}
+			c16Exec(r, l, cs)
 		}
 	})
 
